@@ -444,10 +444,13 @@ def _dispatcher_shape():
     last = _strip_docstring(r.body)[-1]
     if _dump(last) != _stmt("return FileResponse(file_path, chunk_size=self._chunk_size)"):
         raise TranslatorError("_resolve_path_to_response: must end with FileResponse(file_path, ...)")
-    rs = ast.unparse(core.find_function(UD, "resolve", cls="StaticResource"))
+    rs = ast.unparse(core.find_function(UD, "resolve", cls="StaticResource")) + "\n" + \
+        ast.unparse(core.find_function(UD, "_set_match_prefix", cls="PrefixResource"))
     for piece in ("path = request.rel_url.path_safe", "norm_path = os.path.normpath(path)",
-                  "if not norm_path.startswith(self._prefix2) and norm_path != self._prefix:",
-                  "_unquote_path_safe(path[len(self._prefix) + 1:])"):
+                  # since 70456c5 the prefix is compared in its path_safe (decoded) form, like the request path
+                  "if not norm_path.startswith(self._prefix2) and norm_path != self._prefix_safe:",
+                  "_unquote_path_safe(path[len(self._prefix_safe) + 1:])",
+                  "self._prefix_safe = _path_safe(self._prefix)", "self._prefix2 = self._prefix_safe + '/'"):
         if piece not in rs:
             raise TranslatorError(f"StaticResource.resolve: `{piece}` not found")
     return ["(* StaticResource._handle / _resolve_path_to_response / resolve: statement shapes checked *)",
